@@ -2,7 +2,7 @@
    Order-only parts run at [W := Z] on rank-encoded values; arithmetic parts and the
    mixed predict run at [W := float] (PrimFloat, binary64) on the actual values. *)
 From Coq Require Import ZArith List Bool PrimFloat.
-From OPF Require Import Base.Lists Base.NumOps Model.Heap Model.Knn Model.Pdf Model.Run Model.RunSup.
+From OPF Require Import Base.Lists Base.NumOps Model.Heap Model.Knn Model.Pdf Model.KnnFit Model.Run Model.RunSup.
 Import ListNotations.
 Open Scope Z_scope.
 
@@ -107,18 +107,12 @@ Definition fz (z : Z) : float := float_ofZ z.
 
 Definition run_knn_fit_final (sup : Z) (n k : Z) (gdens0 : float) (labels : list Z) (d e : list float) : list float :=
   let nn := zn n in
-  let kk := zn k in
-  let isup := negb (Z.eqb sup 0) in
-  let g0 := mkKnn (map zn labels) (repeat [] nn) (repeat 0%float nn) (repeat 0%nat nn) (repeat 0%float nn) (repeat 0%float nn)
-                  (repeat None nn) (repeat 0%nat nn) (repeat 0%nat nn) (repeat 0%nat nn) [] gdens0 0%nat in
-  let w := fun i j => nth (i * nn + j)%nat d 0%float in
-  let '(g1, _) := create_arcs PrimFloat.ltb 0%float fmaxF 0x1.4f8b588e368f1p-17%float 1%float kk nn w g0 in
-  let '(c, mn, mx, dc) := calculate_pdf FOps fmaxF 1000 nn kk (k_gdens g1)
-                            (fun i l => nth (i * nn + nth l (nth i (k_adj g1) []) 0%nat)%nat e 0%float) in
-  let g2 := mkKnn (k_label g1) (k_adj g1) (k_radius g1) (k_nplat g1) (map fst dc) (map snd dc)
-                  (k_pred g1) (k_root g1) (k_plabel g1) (k_clabel g1) (k_order g1) (k_gdens g1) (k_nclusters g1) in
-  let g3 := if isup then clustering_sup PrimFloat.ltb 0%float fmaxF (PrimFloat.opp fmaxF) true g2
-            else clustering_unsup PrimFloat.ltb 0%float fmaxF (PrimFloat.opp fmaxF) kk g2 in
+  let dm := fun i j => nth (i * nn + j)%nat d 0%float in
+  let em := fun i j => nth (i * nn + j)%nat e 0%float in
+  let '(g3, (c, mn, mx)) :=
+      if Z.eqb sup 0
+      then unsup_final FOps fmaxF 0x1.4f8b588e368f1p-17%float 1%float 1000 (zn k) (map zn labels) gdens0 dm em
+      else knn_sup_final FOps fmaxF 0x1.4f8b588e368f1p-17%float 1%float 1000 (zn k) (map zn labels) gdens0 dm em in
   [c; mn; mx; fz (nz (k_nclusters g3))] ++ k_radius g3 ++ k_dens g3 ++ k_cost g3
   ++ map (fun o => fz (opt_code o)) (k_pred g3) ++ map (fun r => fz (nz r)) (k_root g3)
   ++ map (fun r => fz (nz r)) (k_plabel g3) ++ map (fun r => fz (nz r)) (k_clabel g3).
